@@ -172,6 +172,15 @@ func (o *object) call(this Value, argumentList []Value, eval bool, frm frame) Va
 
 		// Enter a scope, name from the native object...
 		rt := o.runtime
+		// A built-in called by a built-in (every with a bound every as its
+		// callback) evaluates no node: poll for an interrupt here as well.
+		if rt.otto != nil && rt.otto.Interrupt != nil {
+			select {
+			case value := <-rt.otto.Interrupt:
+				rt.interrupt(value)
+			default:
+			}
+		}
 		if rt.scope == nil {
 			// Called from Go outside of any Run or Call (Value.String,
 			// Object.Call, ...): natives calling natives (toString -> join ->
